@@ -52,9 +52,9 @@ variable {env : Env} (hflt : env.flt = false) (cfg' : FromValue.Cfg) (hap : cfg'
 
 /-! ## from an array -/
 
-include hext hflt hap in
+include hext hflt in
 /-- a fixed-length visitor (tuple, struct fields in order, tuple variant) on a printed array, closed by `end_seq` -/
-theorem tupleArr_text (wrap : List TVal → TVal) (ss : List Schema) (f t : Nat) (xs : List JV) (hv : VOK (.arr xs))
+theorem tupleArr_text (wrap : List TVal → TVal) (ss : List Schema) (f t : Nat) (xs : List JV) (hv : VOKg (.arr xs))
     (ih : TupAgree ext (deTyped env f (t + 1)) (FromValue.fromValue cfg' ext') ss xs)
     (rest : Bytes) (pos : Nat) :
     match FromValue.visitArray (FromValue.tupleSeq cfg' ext' ss xs) wrap with
@@ -63,8 +63,8 @@ theorem tupleArr_text (wrap : List TVal → TVal) (ss : List Schema) (f t : Nat)
     | .error _ => ∀ x r p,
         closeWith env (endSeq env) ((tupleLoop env (deTyped env f (t + 1)) ss true [] (Telems ext xs ++ 0x5d :: rest) (pos + 1)).map wrap)
           ≠ .ok x r p := by
-  have hhd : ∀ x ∈ xs, ∃ c tl, T ext x = c :: tl ∧ HeadOf x c := fun x hx => T_head ext hext x (vok_elem xs x hx hv)
-  have hloop := tupleLoop_text ext hext hflt cfg' hap ext' f (t + 1) ss xs ih hhd true [] rest (pos + 1)
+  have hhd : ∀ x ∈ xs, ∃ c tl, T ext x = c :: tl ∧ HeadOf x c := fun x hx => T_head_g ext hext x (vokg_elem xs x hx hv)
+  have hloop := tupleLoop_text ext hext hflt cfg' ext' f (t + 1) ss xs ih hhd true [] rest (pos + 1)
   simp only [if_true, Bool.true_and] at hloop
   cases hall : FromValue.tupleSeq cfg' ext' ss xs with
   | error e =>
@@ -128,11 +128,11 @@ theorem structLoop_bad (de : Schema → Bytes → Nat → TOut) (fs : List (Byte
     unfold structLoop
     exact bind_not_ok (hasNextKey_bad h pos)
 
-include hext hflt hap in
+include hext hflt in
 /-- derive's struct `visit_map` loop over a printed object, against `structMapLoop` with `fieldDe` -/
 theorem structLoop_text (f t : Nat) (fs : List (Bytes × Schema)) (deny : Bool) :
     ∀ (kvs : List (Bytes × JV)),
-      (∀ kv ∈ kvs, Spec.Utf8.validUtf8 kv.1 = true ∧ shapeW kv.2 = true ∧
+      (∀ kv ∈ kvs, Spec.Utf8.validUtf8 kv.1 = true ∧ VOKg kv.2 ∧
         ∀ i nm s, FromValue.nameIndex (fieldNames fs) kv.1 = some i → fs[i]? = some (nm, s) →
           Agree1w (deTyped env f t s) (FromValue.fromValue cfg' ext' s kv.2) (T ext kv.2)) →
     ∀ (first : Bool) (slots : List (Option TVal)) (n : Nat) (rest : Bytes) (pos : Nat),
@@ -219,7 +219,7 @@ theorem structLoop_text (f t : Nat) (fs : List (Bytes × Schema)) (deny : Bool) 
         | true => simp [FromValue.fail]
         | false =>
           simp only [Bool.false_eq_true, if_false, Res.bind, parseObjectColon_colon]
-          rw [ignoreValue_T ext hext env hflt x hsx _ _ (sepOK_mtail ext kvs rest)]
+          rw [ignoreValue_T_g ext hext env hflt x hsx _ _ (sepOK_mtail ext kvs rest)]
           simp only [Res.bind]
           have hr := hrec slots
           cases hall : FromValue.structMapLoop (FromValue.fieldDe cfg' ext' fs) false kvs slots with
@@ -233,15 +233,15 @@ theorem structLoop_text (f t : Nat) (fs : List (Bytes × Schema)) (deny : Bool) 
             congr 1
             omega
 
-include hext hflt hap in
+include hext hflt in
 /-- structs: `deserialize_struct` from an array or an object against `from_value` -/
-theorem agree_struct (fs : List (Bytes × Schema)) (deny : Bool) (f t : Nat) (v : JV) (hv : VOK v) (hd : DepthOK env t v)
+theorem agree_struct (fs : List (Bytes × Schema)) (deny : Bool) (f t : Nat) (v : JV) (hv : VOKg v) (hd : DepthOK env t v)
     (iha : ∀ xs, v = .arr xs → TupAgree ext (deTyped env f (t + 1)) (FromValue.fromValue cfg' ext') (fs.map (·.2)) xs)
     (iho : ∀ kvs, v = .obj kvs → ∀ kv ∈ kvs, ∀ i nm s, FromValue.nameIndex (fieldNames fs) kv.1 = some i → fs[i]? = some (nm, s) →
       Agree1w (deTyped env f (t + 1) s) (FromValue.fromValue cfg' ext' s kv.2) (T ext kv.2)) :
     Agree1 (deTyped env (f + 1) t (.struct_ fs deny)) (FromValue.fromValue cfg' ext' (.struct_ fs deny) v) (T ext v) := by
   intro rest pos hs
-  obtain ⟨c, tl, hT, hc⟩ := T_head ext hext v hv
+  obtain ⟨c, tl, hT, hc⟩ := T_head_g ext hext v hv
   have hw := (headOf_facts hc).1
   have ht := headOf_tests hc
   rw [deTyped_struct]
@@ -252,7 +252,7 @@ theorem agree_struct (fs : List (Bytes × Schema)) (deny : Bool) (f t : Nat) (v 
       unfold deStruct
       rw [withPeek_cons env _ (by decide)]
       simp only [beq_self_eq_true, if_true, tooDeep_false t xs hd, Bool.false_eq_true, if_false]
-    have key := tupleArr_text ext hext hflt cfg' hap ext' .struct_ (fs.map (·.2)) f t xs hv (iha xs rfl) rest pos
+    have key := tupleArr_text ext hext hflt cfg' ext' .struct_ (fs.map (·.2)) f t xs hv (iha xs rfl) rest pos
     simp only [FromValue.fromValue, fieldsSeq_eq_tupleSeq]
     have hTa : T ext (.arr xs) ++ rest = 0x5b :: (Telems ext xs ++ 0x5d :: rest) := by rw [T_arr]; simp
     rw [hTa]
@@ -260,11 +260,11 @@ theorem agree_struct (fs : List (Bytes × Schema)) (deny : Bool) (f t : Nat) (v 
     | ok tv => rw [hva] at key; simp only at key ⊢; rw [hde]; exact key
     | error e => rw [hva] at key; simp only at key ⊢; rw [hde]; exact key
   | obj kvs =>
-    have hel : ∀ kv ∈ kvs, Spec.Utf8.validUtf8 kv.1 = true ∧ shapeW kv.2 = true ∧
+    have hel : ∀ kv ∈ kvs, Spec.Utf8.validUtf8 kv.1 = true ∧ VOKg kv.2 ∧
         ∀ i nm s, FromValue.nameIndex (fieldNames fs) kv.1 = some i → fs[i]? = some (nm, s) →
           Agree1w (deTyped env f (t + 1) s) (FromValue.fromValue cfg' ext' s kv.2) (T ext kv.2) :=
-      fun kv hx => ⟨(vok_member kvs kv hx hv).1, (vok_member kvs kv hx hv).2, fun i nm s h1 h2 => iho kvs rfl kv hx i nm s h1 h2⟩
-    have hloop := structLoop_text ext hext hflt cfg' hap ext' f (t + 1) fs deny kvs hel true (fs.map fun _ => none)
+      fun kv hx => ⟨(vokg_member kvs kv hx hv).1, (vokg_member kvs kv hx hv).2, fun i nm s h1 h2 => iho kvs rfl kv hx i nm s h1 h2⟩
+    have hloop := structLoop_text ext hext hflt cfg' ext' f (t + 1) fs deny kvs hel true (fs.map fun _ => none)
       ((Tmembers ext kvs ++ 0x7d :: rest).length + 1) rest (pos + 1) (by simp [Tm])
     simp only [Tm, if_true] at hloop
     have hde : deStruct env t (deTyped env f) fs deny (0x7b :: (Tmembers ext kvs ++ 0x7d :: rest)) pos =
